@@ -58,6 +58,11 @@ CLAIMED = {
    technique="deterministic simulation of the structure API with write/load restarts vs byte-store model",
    note="Trusted base: the byte-store model, Go toolchain. Free space is recorded as a probe, not enforced.",
    ref="DESIGN.md section 4 C15"),
+ "C19": dict(level="exploration", engine="E1-history-simulator",
+   text="Content part: seeded attribute histories are executed under seeded rebalancing configurations with toggles inserted at random points and again under the default configuration; dumps after restart must be identical. Selector part: the real WorkloadDetector/ConfigSelector/SmartRebalancer.Evaluate run under a simulated clock (incl. backward and far-forward jumps as clock faults) over seeded observation sequences and all constraint settings; a recording or scripted strategy supplies the raw pre-gate decision so each gate's invariant is checked on every returned Decision.",
+   technique="deterministic simulation: configuration differential; selector under a simulated clock with clock faults",
+   note="Trusted base: the invariant checker in sim/e1/c19.go, the simulated Clock. The BTreeV2 adapter in the selector part is a stub (file size only).",
+   ref="DESIGN.md section 4 C19"),
  "C01": dict(level="exploration", engine="E1-history-simulator",
    text="Seeded deterministic simulation of write/restart/read histories (all dataset types x ranks x layouts x superblock versions x data classes) against an executable reference model; every failing run is minimised and replayed twice in fresh processes before it is reported.",
    technique="deterministic simulation: seeded write/restart/read histories vs reference model over a simulated disk",
